@@ -21,7 +21,8 @@ Inductive op :=
 | Detach (h until : N)          (* the object is consumed (final response sent / received): a task keeps the entry until [until] *)
 | Drop (h : N)                  (* the application drops the object *)
 | Advance (t : N)               (* the clock reaches t: tasks with a deadline <= t have ended *)
-| Noise (key : N).              (* orphan response / unmatched CANCEL lookup / retransmission: looks up, never inserts *)
+| Noise (key : N)               (* orphan response / unmatched CANCEL lookup / retransmission: looks up, never inserts *)
+| Finish (key : N).             (* the task holding [key] ends before its deadline (e.g. the ACK for a rejected INVITE arrived) *)
 
 Record world := mkw { now : N; tbl : table }.
 
@@ -38,6 +39,7 @@ Definition step (w : world) (o : op) : world :=
   | Drop h => mkw (now w) (filter (fun e => negb (held_by h e)) (tbl w))
   | Advance t => let t' := N.max t (now w) in mkw t' (filter (alive t') (tbl w))
   | Noise _ => w
+  | Finish k => mkw (now w) (filter (fun e => negb ((e_key e =? k) && match e_owner e with Timed _ => true | Held _ => false end)) (tbl w))
   end.
 
 Definition run (ops : list op) : world := fold_left step ops (mkw 0 []).
